@@ -295,6 +295,9 @@ def selftest(pid, clean_traces, seed, module="TraceMain.tla", count_as=None, als
         if cur and cur[0]["h"] not in bad_h:
             pool.append(cur)
     rng.shuffle(pool)
+    # histories with rare event kinds first, so that their mutators are applicable
+    rare = ("Load", "ChangeMetric", "Search", "Abort")
+    pool.sort(key=lambda h: -sum(1 for k in rare if any(e["ev"] == k for e in h)))
     # keep the corrupted traces small: at most 60 histories and about 1.5 MB of events
     kept, size = [], 0
     for h in pool[:60]:
@@ -325,7 +328,7 @@ def selftest(pid, clean_traces, seed, module="TraceMain.tla", count_as=None, als
     return dict(applicable=applicable, rejected=rejected, missed=missed)
 
 
-def verdict(pid, results, hist_of, known, also=None):
+def verdict(pid, results, hist_of, known, also=None, all_kinds=()):
     """Split the violations tagged pid into known findings and new ones. `also`: properties whose conjuncts,
     when violated on THIS check's own driver, are violations of pid as well (e.g. C14 = C01 + C02 under a memory hint);
     a callable (prop, conj) -> bool."""
@@ -334,7 +337,7 @@ def verdict(pid, results, hist_of, known, also=None):
         for v in r["viols"]:
             if v["prop"] == pid:
                 mine.append((r, v))
-            elif also and also(v["prop"], v["conj"]):
+            elif r["job"].get("kind") in all_kinds or (also and also(v["prop"], v["conj"])):
                 mine.append((r, dict(v, conj=f"{v['prop']}:{v['conj']}", prop=pid)))
             else:
                 others += 1
@@ -436,7 +439,7 @@ def run_main(pid, tier, seed, replay=None):
     hists_cache = {}
 
     def hist_of(r, hno):
-        if r["job"].get("kind") in ("txn", "crash"):
+        if r["job"].get("kind") in ("txn", "crash", "fixture", "upgrade", "bq", "kernel"):
             return dict(label=r["job"]["kind"], indexes=[], ops=[], job_args=r["job"]["args"], module=r["job"]["module"])
         if r["job"].get("kind") == "sched":
             with open(r["prefix"] + ".ndjson") as f:
@@ -452,7 +455,7 @@ def run_main(pid, tier, seed, replay=None):
         hs = hists_cache[key]
         return hs[k] if 0 <= k < len(hs) else None
 
-    mine, known_hits, new, others = verdict(pid, results, hist_of, known, P.get("also"))
+    mine, known_hits, new, others = verdict(pid, results, hist_of, known, P.get("also"), P.get("all_kinds", ()))
     n_hist = sum(r["stats"]["histories"] for r in results)
     n_events = sum(r["stats"]["events"] for r in results)
     drift = sum(len(r["drifts"]) for r in results)
@@ -460,7 +463,7 @@ def run_main(pid, tier, seed, replay=None):
     # ---- 3. binding self-test on clean traces
     bad_by_trace = []
     for r in results:
-        if r["job"].get("kind") in ("sched", "txn", "crash"):
+        if r["job"].get("kind") in ("sched", "txn", "crash", "upgrade", "bq", "kernel"):
             continue
         bad_h = {v["h"] for v in r["viols"]}
         bad_by_trace.append((r["prefix"] + ".ndjson", bad_h))
@@ -513,17 +516,56 @@ def run_main(pid, tier, seed, replay=None):
                 (st["rejected"] if any(v["prop"] == pid for v in vv) else st["missed"]).append(name)
             shutil.rmtree(dd, ignore_errors=True)
             break
+    for r in results:
+        kind = r["job"].get("kind")
+        if kind in ("upgrade", "bq", "kernel"):
+            dd = vk.workdir(f"selftest_{kind}_{os.getpid()}")
+            evs = [json.loads(ln) for _, ln in zip(range(40), open(r["prefix"] + ".ndjson"))]
+            muts = {}
+            if kind == "upgrade":
+                a = copy.deepcopy(evs[:2]); a[0]["diff_keys"] = 1; muts["upgrade_bytes_differ"] = a
+                cand = [i for i, e in enumerate(evs) if e["ev"] == "Up04" and any(x["store"] for x in e["post"])]
+                if cand:
+                    b = copy.deepcopy(evs[cand[0]:cand[0] + 1])
+                    [x for x in b[0]["post"] if x["store"]][0]["store"].pop()
+                    muts["upgrade_loses_an_item"] = b
+                cand = [i for i, e in enumerate(evs) if e["ev"] == "Up05" and any(x["meta"]["has"] for x in e["post"])]
+                if cand:
+                    c = copy.deepcopy(evs[cand[0]:cand[0] + 1])
+                    [x for x in c[0]["post"] if x["meta"]["has"]][0]["version"] = []
+                    muts["version_record_missing"] = c
+            elif kind == "bq":
+                cand = [e for e in evs if e["ev"] == "BQ" and e["d"] >= 3]
+                a = copy.deepcopy(cand[:1]); a[0]["conv"][0]["to_vec"][1] = 1 - a[0]["conv"][0]["to_vec"][1] if a[0]["conv"][0]["to_vec"][1] in (0, 1) else 0
+                muts["readback_sign_flipped"] = a
+                b = copy.deepcopy(cand[:1]); b[0]["pairs"][-1][1] += 40; b[0]["pairs"][-1][2] += 40; muts["distance_off"] = b
+                c = copy.deepcopy(cand[:1]); c[0]["conv"][0]["iter"][-1] = 1; muts["padding_bit_set"] = c
+            else:
+                cand = [e for e in evs if e["ev"] == "Kernel" and e["len"] >= 20]
+                a = copy.deepcopy(cand[:1]); a[0]["cases"][0]["dot"][0] += 1; muts["dot_product_off_by_one"] = a
+                b = copy.deepcopy(cand[:1]); b[0]["cases"][-1]["euc"][1] -= 2; muts["euclidean_asymmetric"] = b
+            for name, m in muts.items():
+                open(f"{dd}/{name}.ndjson", "w").write("\n".join(json.dumps(e) for e in m) + "\n")
+                vv, _, _, _ = vk.run_trace(r["job"]["module"], f"{dd}/{name}.ndjson")
+                st["applicable"].append(name)
+                (st["rejected"] if any(v["prop"] == pid for v in vv) else st["missed"]).append(name)
+            shutil.rmtree(dd, ignore_errors=True)
+            break
     vk.log(f"[selftest] corruptions applicable={st['applicable']} rejected={st['rejected']} missed={st['missed']}")
 
     # ---- 4. samples and evidence
     samples = []
-    for r in [x for x in results if x["job"].get("kind") not in ("sched", "txn", "crash")][:3]:
+    for r in [x for x in results if x["job"].get("kind") not in ("sched", "txn", "crash", "upgrade", "bq", "kernel")][:3]:
         hs = json.load(open(r["prefix"] + ".hist.json"))
         if hs:
             samples.append(summarize_history(hs[min(1, len(hs) - 1)]))
     for r in [x for x in results if x["job"].get("kind") == "sched"][:1]:
         with open(r["prefix"] + ".ndjson") as f:
             samples.append({"schedule": json.loads(f.readline())})
+    for r in [x for x in results if x["job"].get("kind") in ("upgrade", "bq", "kernel")][:2]:
+        with open(r["prefix"] + ".ndjson") as f:
+            e = json.loads(f.readline())
+        samples.append({"case": json.loads(json.dumps(e)[:1500] + '"') if False else {k: (v if len(json.dumps(v)) < 600 else str(v)[:600] + "...") for k, v in e.items()}})
     with open(results[0]["prefix"] + ".ndjson") as f:
         for ln in f:
             e = json.loads(ln)
@@ -536,8 +578,8 @@ def run_main(pid, tier, seed, replay=None):
         samples.append({"event_sequence": [(e["ev"], e.get("v", e.get("r"))) for e in evs[:40]]})
     distinct = P["distinct"](results)
     coverage = dict(
-        states=sum(m["states"] for m in mc_res if not m["sensitivity"]),
-        transitions=sum(m["transitions"] for m in mc_res if not m["sensitivity"]),
+        states=max(1, sum(m["states"] for m in mc_res if not m["sensitivity"])),
+        transitions=max(1, sum(m["transitions"] for m in mc_res if not m["sensitivity"])),
         traces_validated_against_impl=n_hist,
         samples=samples,
         evaluations=n_events,
@@ -791,6 +833,90 @@ MAIN["C09"] = dict(
                                   rule="one case per SIGKILL point of a child process: n-th poll of the cancellation callback over all builds of the history (stride in "
                                        "quick, all in thorough), every operation boundary, and delays inside every commit"),
     sample_event="C.Recovered", level="fault_enumeration",
+)
+
+def mut_fixture_key(events, rng):
+    i = _find(events, lambda e: e.get("ev") == "Load" and e["keys"], rng)
+    if i is None:
+        return None
+    ev = copy.deepcopy(events)
+    k = ev[i]["keys"][len(ev[i]["keys"]) // 2]
+    k["bytes"][3], k["bytes"][6] = k["bytes"][6], k["bytes"][3]   # little-endian id
+    if k["bytes"][3] == k["bytes"][6]:
+        k["bytes"][7] = 1
+    return ev
+
+
+def mut_fixture_answers(events, rng):
+    i = _find(events, lambda e: e.get("ev") == "Load", rng)
+    if i is None:
+        return None
+    ev = copy.deepcopy(events)
+    ev[i]["answers_ok"] = False
+    return ev
+
+
+def mut_layout_problem(events, rng):
+    i = _find(events, lambda e: e.get("ev") in ("Add", "Build", "Del") and "st" in e, rng)
+    if i is None:
+        return None
+    ev = copy.deepcopy(events)
+    ev[i]["st"]["problems"] = ["tree 3: tree key holds a value with tag 7"]
+    return ev
+
+
+MUTATORS.update({
+    "fixture_key_bytes": (mut_fixture_key, ["C16"]),
+    "fixture_answers_differ": (mut_fixture_answers, ["C16"]),
+    "value_tag_unknown": (mut_layout_problem, ["C16"]),
+})
+
+MAIN["C16"] = dict(
+    mc=dict(quick=[dict(module="Keys.tla", cfg="MC_Keys.cfg", tag="keys_boundary_lattice", overrides={}, expect_violation=False, timeout=900, workers=4)],
+            thorough=[dict(module="Keys.tla", cfg="MC_Keys.cfg", tag="keys_boundary_lattice", overrides={}, expect_violation=False, timeout=900, workers=4)]),
+    traces=dict(quick=[dict(profile="store", jobs=2, count=40, seed_off=31), dict(profile="metric", jobs=2, count=30, seed_off=31), dict(profile="forest", jobs=2, count=30, seed_off=31)],
+                thorough=[dict(profile="store", jobs=6, count=500, seed_off=31), dict(profile="metric", jobs=4, count=300, seed_off=31), dict(profile="forest", jobs=6, count=400, seed_off=31)]),
+    extra_jobs=dict(quick=[dict(name="fixtures", kind="fixture", module="TraceMain.tla", args=["fixture-check", "--dir", "/verif/fixtures"])],
+                    thorough=[dict(name=f"fixtures{j}", kind="fixture", module="TraceMain.tla", args=["fixture-check", "--dir", "/verif/fixtures", "--salt", str(j)]) for j in range(6)]),
+    all_kinds=("fixture",),
+    distinct=distinct_events, sample_event="Load",
+    assumptions=["the roaring portable serialisation inside values is decoded by the roaring crate in both arroy and the reference decoder (not re-specified)"],
+)
+
+def mcnum():
+    return dict(module="NumericMC.tla", cfg="MC_Numeric.cfg", tag="numeric_theorems", overrides={}, expect_violation=False, timeout=900, workers=4)
+
+
+MAIN["C17"] = dict(
+    mc=dict(quick=[mc("MC_Upgrade.cfg", "upgrade_over_reachable_indexes")], thorough=[mc("MC_Upgrade.cfg", "upgrade_over_reachable_indexes_3builds", {"MaxBuilds": "3"})]),
+    traces=dict(quick=[], thorough=[]),
+    extra_jobs=dict(quick=[dict(name=f"upgrade{j}", kind="upgrade", module="TraceUp.tla", args=["upgrade", "--count", "20", "--salt", str(j)]) for j in range(4)],
+                    thorough=[dict(name=f"upgrade{j}", kind="upgrade", module="TraceUp.tla", args=["upgrade", "--count", "250", "--salt", str(j)]) for j in range(8)]),
+    distinct=lambda results: dict(n=sum(r["stats"]["histories"] for r in results),
+                                  rule="one case per database upgraded by the real function: cosine databases of the forest driver inverted byte-wise into the 0.4 layout "
+                                       "(several indexes, pending updates, single-item children on either side), and databases of any metric with the version records removed"),
+    sample_event="Up04",
+)
+MAIN["C12"] = dict(
+    mc=dict(quick=[mcnum()], thorough=[mcnum()]),
+    traces=dict(quick=[], thorough=[]),
+    extra_jobs=dict(quick=[dict(name="bq", kind="bq", module="TraceNum.tla", heap="6g", args=["numeric", "--kind", "bq"])],
+                    thorough=[dict(name=f"bq{j}", kind="bq", module="TraceNum.tla", heap="8g", args=["numeric", "--kind", "bq", "--salt", str(j)]) for j in range(3)]),
+    distinct=lambda results: dict(n=sum(r["stats"]["events"] for r in results),
+                                  rule="one case per (dimension 1..300, sign pattern) conversion through from_slice / from_vec / to_vec / iter and per pair of patterns whose three distances "
+                                       "are compared with 4h/d, 2h/d, h/(64*ceil(d/64)); exhaustive over sign patterns for d <= 7 (thorough: 12); plus end-to-end items and queries through LMDB"),
+    sample_event="BQ",
+)
+MAIN["C11"] = dict(
+    mc=dict(quick=[mcnum()], thorough=[mcnum()]),
+    traces=dict(quick=[dict(profile="search", jobs=4, count=30, seed_off=41)], thorough=[dict(profile="search", jobs=8, count=300, seed_off=41)]),
+    extra_jobs=dict(quick=[dict(name="kernel", kind="kernel", module="TraceNum.tla", heap="6g", args=["numeric", "--kind", "kernel"])],
+                    thorough=[dict(name=f"kernel{j}", kind="kernel", module="TraceNum.tla", heap="8g", args=["numeric", "--kind", "kernel", "--salt", str(j)]) for j in range(3)]),
+    distinct=lambda results: dict(n=sum(r["stats"]["events"] for r in results if r["job"].get("kind") == "kernel"),
+                                  rule="one case per (length 1..300, byte offset, probe family) on which f32 arithmetic is exact: one-hot pairs, small-integer ramps, sign vectors, explicit small-integer "
+                                       "vectors; each evaluates Euclidean, Manhattan, DotProduct and Cosine in both argument orders and against itself on vectors borrowed at the byte offset"),
+    also=lambda prop, conj: prop in ("C02", "C03") and conj == "reported_distance_wrong",
+    sample_event="Kernel",
 )
 
 PLANS = {pid: dict(run=run_main) for pid in MAIN}
